@@ -116,6 +116,10 @@ def run(c, prog, ctx):
         c.inst("R2.witness-is_empty", fnp, r == _all_fields(prog, owner),
                "%s inspects %s, expected all fields of %s" % (fnp, sorted(r), owner), fe.where(), fe.path)
 
+    # guard predicates that decide what is committed (issuance flag/body, witness set)
+    from .predicates import run_predicates
+    run_predicates(c, prog, "R2.commitment-guards")
+
     # ---------------- R3 Transaction::consensus_encode
     enc = prog.fn("<transaction::Transaction as encode::Encodable>::consensus_encode")
     ev = _ev_list(enc.body)
